@@ -37,7 +37,7 @@ const (
 
 var (
 	clientName = []string{"A", "B", "U"}
-	anonName   = []string{"x", "y"}
+	anonName   = []string{"x", "y", "empty"}
 	seedBase   int64
 )
 
@@ -67,7 +67,7 @@ type clientFx struct {
 
 type fixture struct {
 	cl   [3]clientFx
-	anon [2][]byte
+	anon [3][]byte // x, y and the zero-length id
 	err  string
 }
 
@@ -128,7 +128,7 @@ func buildFixture() *fixture {
 			return fail("AddOriginWithIndexKey: %v", err)
 		}
 	}
-	f.anon = [2][]byte{mc.Fill(seedBase, "anon-x", 32), mc.Fill(seedBase, "anon-y", 32)}
+	f.anon = [3][]byte{mc.Fill(seedBase, "anon-x", 32), mc.Fill(seedBase, "anon-y", 32), {}}
 	secrets := [3][]byte{scDRBG("client-A"), scLeadingZero("client-B"), sc(big.NewInt(1))}
 	for c := 0; c < 3; c++ {
 		cf := &f.cl[c]
@@ -201,6 +201,7 @@ type model struct {
 type State struct {
 	cache *px.MemCache
 	m     model
+	att   *type3.RateLimitedAttester // non-nil in the history search: ONE attester object lives through the whole history
 }
 
 func initState() *State {
@@ -327,11 +328,14 @@ func apply(s *State, op Op) (obs string, v *mc.Viol) {
 }
 
 func applyInner(s *State, op Op) (string, *mc.Viol) {
-	if fx.err != "" || op.C < 0 || op.C > 2 || op.O < 0 || op.O > 2 || op.A < 0 || op.A > 1 {
+	if fx.err != "" || op.C < 0 || op.C > 2 || op.O < 0 || op.O > 2 || op.A < 0 || op.A > 2 {
 		return "harness-bad-op", nil
 	}
 	cf := &fx.cl[op.C]
-	att := type3.NewRateLimitedAttester(s.cache)
+	att := s.att
+	if att == nil {
+		att = type3.NewRateLimitedAttester(s.cache) // state-merging searches: the state is the cache
+	}
 	before := canon(s)
 	putsBefore := s.cache.Puts
 	keysBefore := map[string]bool{}
@@ -427,19 +431,27 @@ func main() {
 	seedBase = r.Seed
 	mc.InstallDRBG(r.Seed)
 
-	clients := mc.Pick(r, []int{cA, cU}, []int{cA, cB, cU})
-	var menu []Op
-	for _, c := range clients {
-		if c != cU {
-			menu = append(menu, Op{K: "verify", C: c})
-		}
-		menu = append(menu, Op{K: "verify-bad-sig", C: c}, Op{K: "verify-wrong-blind", C: c})
-		for o := 0; o < 3; o++ {
-			for a := 0; a < 2; a++ {
-				menu = append(menu, Op{K: "finalize", C: c, O: o, A: a})
+	// two searches: (1) one verified-capable client, anonymous ids {x, y, empty}; (2) two clients
+	// (state of one must never leak into decisions about the other), ids {x, y}; quick restricts
+	// (2) to origins o1 (shared key with o2) and o3
+	build := func(clients []int, origins []int, anons []int) []Op {
+		var menu []Op
+		for _, c := range clients {
+			if c != cU {
+				menu = append(menu, Op{K: "verify", C: c})
+			}
+			menu = append(menu, Op{K: "verify-bad-sig", C: c}, Op{K: "verify-wrong-blind", C: c})
+			for _, o := range origins {
+				for _, a := range anons {
+					menu = append(menu, Op{K: "finalize", C: c, O: o, A: a})
+				}
 			}
 		}
+		return menu
 	}
+	clients := []int{cA, cB, cU}
+	menu := build([]int{cA, cU}, []int{0, 1, 2}, []int{0, 1, 2})
+	menu2 := build(clients, mc.Pick(r, []int{0, 2}, []int{0, 1, 2}), []int{0, 1})
 	q := &mc.Seq[*State, Op]{
 		Init:  initState,
 		Ops:   func(*State, int) []Op { return menu },
@@ -451,6 +463,29 @@ func main() {
 		Label: func(o Op) string { return o.label() },
 	}
 	q.Register(r)
+	q2 := &mc.Seq[*State, Op]{Init: initState, Ops: func(*State, int) []Op { return menu2 }, Apply: apply, Canon: canon, Clone: cloneState, Depth: 0, Kind: "history",
+		Label: func(o Op) string { return o.label() }}
+	// (3) no state merging, one attester OBJECT kept alive through every history (whatever the
+	// attester remembers outside the cache is part of the state): every history up to the depth
+	var menu3 []Op
+	for _, c := range clients[:2] {
+		menu3 = append(menu3, Op{K: "verify", C: c})
+		for _, o := range []int{0, 2} {
+			for _, a := range []int{0, 1} {
+				menu3 = append(menu3, Op{K: "finalize", C: c, O: o, A: a})
+			}
+		}
+	}
+	menu3 = append(menu3, Op{K: "verify-wrong-blind", C: cB}, Op{K: "finalize", C: cU, O: 0, A: 0})
+	q3 := &mc.Seq[*State, Op]{
+		Init: func() *State {
+			s := initState()
+			s.att = type3.NewRateLimitedAttester(s.cache)
+			return s
+		},
+		Ops: func(*State, int) []Op { return menu3 }, Apply: apply, Depth: mc.Pick(r, 4, 5), Kind: "object-history",
+		Label: func(o Op) string { return o.label() }}
+	q3.Register(r)
 	if r.IsReplay() {
 		r.DoReplay()
 	}
@@ -467,7 +502,7 @@ func main() {
 		"the verdict of VerifyRequest on a corrupted signature is not judged here (property C06); only whether client state gets registered",
 		"originIndices is dumped into the canonical state but, as the property only speaks about accepted bindings, it is not compared with the model",
 		"reference ID per (client, origin index key) from own RFC 9380 hash_to_field + crypto/elliptic + x/crypto/hkdf")
-	r.Set("dimensions", map[string]any{"clients": len(clients), "origins": 3, "anon_ids": 2, "events": len(menu)})
+	r.Set("dimensions", map[string]any{"search1": "clients A+U, origins o1 o2 o3, anonymous ids x y empty", "search2_events": len(menu2), "search1_events": len(menu)})
 	r.Set("events", func() []string {
 		var l []string
 		for _, o := range menu {
@@ -475,6 +510,43 @@ func main() {
 		}
 		return l
 	}())
-	q.Run(r)
+	r.Par(2, func(i int) {
+		switch i {
+		case 0:
+			q.Run(r)
+		case 1:
+			q2.Run(r)
+		}
+	})
+	// (3): every sequence of exactly depth3 events (shorter histories are their prefixes; the
+	// invariants are checked after every step), each on a fresh attester object
+	depth3 := q3.Depth
+	total := 1
+	for i := 0; i < depth3; i++ {
+		total *= len(menu3)
+	}
+	r.Par(total, func(idx int) {
+		ops := make([]Op, depth3)
+		x := idx
+		for i := depth3 - 1; i >= 0; i-- {
+			ops[i] = menu3[x%len(menu3)]
+			x /= len(menu3)
+		}
+		s := q3.Init()
+		obs := ""
+		for i, op := range ops {
+			var v *mc.Viol
+			obs, v = apply(s, op)
+			r.AddTransitions(1)
+			r.AddTraces(1)
+			if v != nil {
+				r.Violation("object-history", ops[:i+1], v)
+				break
+			}
+		}
+		r.AddStates(1)
+		r.Case(fmt.Sprintf("objhist-%d", idx), true, "object-history:"+obs)
+	})
+	r.Set("object_histories", map[string]any{"events": len(menu3), "depth": depth3, "sequences": total})
 	r.Finish()
 }
